@@ -227,6 +227,52 @@ func runC04(r *core.Run) {
 		s.Transitions.Store(s.Evals.Load())
 		s.Done()
 	}
+	// (1b) one obfuscation edit combined with tails whose escaped form grows by every amount 0..14: a destination whose
+	// resolved and raw forms relate in some special way (same length, same prefix...) must not slip past the predicate
+	for _, k := range urlConstructs {
+		parts := strings.Split(k.tmpl, "§")
+		cfg := core.MustCfg(k.exts[len(k.exts)-1])
+		var urls []string
+		for _, sc := range c04Schemes[:4] {
+			for g := 0; g <= 14; g++ {
+				tail := sc[1] + strings.Repeat("\"", g/2)
+				if g%2 == 1 {
+					tail += "\\\"" // backslash-escaped quote: one byte shorter raw, two bytes longer escaped
+				}
+				spellings(sc[0], tail, 1, func(u string) { urls = append(urls, u) })
+				if strings.Contains(k.tmpl, "<§>") {
+					spellings(sc[0], sc[1]+strings.Repeat(" ", g/2)+"y", 1, func(u string) { urls = append(urls, u) })
+				}
+			}
+		}
+		s := r.Sub("obf-grow-"+k.name, fmt.Sprintf("construct %q with § replaced by every spelling with ≤1 obfuscation edit of 4 dangerous payloads followed by a tail whose URL-escaped form is 0..14 bytes longer than its source (double quotes, one escaped quote; spaces inside <...>), under %s; same oracle", k.tmpl, cfg))
+		s.Planned = int64(len(urls))
+		s.Bound = fmt.Sprintf("edits≤1 × growth 0..14: %d URLs", len(urls))
+		core.ForEachIndex(len(urls), nw, func(w int) func(int) {
+			cv := core.NewConv(cfg)
+			var doc []byte
+			return func(i int) {
+				doc = doc[:0]
+				for j, p := range parts {
+					if j > 0 {
+						doc = append(doc, urls[i]...)
+					}
+					doc = append(doc, p...)
+				}
+				out := c04Case(s, cv, doc, k.name)
+				s.Evals.Add(1)
+				if strings.Contains(string(out), "href=") || strings.Contains(string(out), "src=") {
+					s.Distinct(core.Hash(out))
+				}
+				if i%(len(urls)/4+1) == 0 {
+					s.AddSample(core.Q(doc))
+				}
+			}
+		}, r.Expired)
+		s.States.Store(s.Evals.Load())
+		s.Transitions.Store(s.Evals.Load())
+		s.Done()
+	}
 	// (2) free URL words in every construct
 	n := core.Pick(r, 3, 4)
 	for _, k := range urlConstructs {
